@@ -496,3 +496,31 @@ Proof.
   destruct (built_refs_are_collected g mm input grp auto use_grp t v top' H p Hin) as [nd [x [k [H1 [H2 [H3 [H4 [H5 H6]]]]]]]].
   exists nd, x, k. repeat split; try assumption; rewrite mk_entry_eq; cbn [e_start e_end]; assumption.
 Qed.
+
+(* ================================================================ the converse inclusion is false *)
+(* "the keys of the position map are exactly the spans of the objects of the built value" does NOT
+   hold: a rule referenced without an assignment inside a common rule (A: c=C B;) is processed
+   (its object is created and registered in pos_rule_dict) and the result is dropped by the loop
+   over the children (each_loop: `for n in node: process_node(n)`).  Witness: the table of
+   `A: c=C B; C: 'c' n=ID; B: 'b' m=ID;` on the tree of "c x b y"; replayed on textX: the map is
+   {(4,7): B, (0,3): C, (0,7): A} while the model contains only A and C. *)
+Definition drop_mm : list ninfo :=
+  [IRule RCommon [65]%N [mkAttr [99]%N M1 true false [67]%N false];   (* 0: A, attribute c *)
+   IAsgn [99]%N OpPlain;                                               (* 1: c=C *)
+   IRule RCommon [67]%N [];                                            (* 2: C *)
+   IOther;                                                             (* 3: terminals *)
+   IRule RCommon [66]%N []].                                           (* 4: B *)
+Definition drop_tree : tree :=
+  NT 0 [NT 1 [NT 2 [T 3 0 1 false; T 3 2 1 false]]; NT 4 [T 3 4 1 false; T 3 6 1 false]].
+
+Lemma keys_exactly_built_refuted :
+  exists g mm input grp auto use_grp t v top',
+    pnode g mm input grp auto use_grp t None = BOk (v, top') /\
+    exists nd s e i, In nd (abs g mm [] t) /\ In (s, e, i) (rule_dict nd) /\ ~ In (IObj s e) (vitems v).
+Proof.
+  exists (mkGrammar [] 0 None), drop_mm, [], (fun _ _ => None), false, false, drop_tree.
+  eexists. eexists. split; [vm_compute; reflexivity|].
+  eexists. exists 4%N, 7%N, 4. split; [vm_compute; left; reflexivity|]. split.
+  - vm_compute. left. reflexivity.
+  - vm_compute. intros [H|[H|[]]]; discriminate.
+Qed.
